@@ -4,7 +4,7 @@ from __future__ import annotations
 
 import ast
 import struct
-from typing import Any, Dict, List, Optional, Tuple
+from typing import Any, Dict, List, Optional, Tuple  # noqa: F401
 
 from .. import codec, docs, parity
 from ..cfg import CFG
@@ -94,11 +94,13 @@ def unknown_ids(repo: Repo, rep, P: str):
         rep.ok(f"{P}.R1", construct, f"no-handler branch ({n_stmts} statement(s), log only) → next chunk", "unknown ids are skipped without side effects")
     # handler name derivation
     src = norm(fn)
-    if "name = name.decode(ENCODING).strip()" in src and "method_name = 'process_{}'.format(name)" in src \
-            and "getattr(self, method_name, None)" in src:
-        rep.ok(f"{P}.R1", construct, "process_<id.decode().strip()>", "4-byte ids with trailing blanks (e.g. 'BPM ') find their handler")
+    verdict = _handler_lookup(fn)
+    if verdict is None:
+        rep.ok(f"{P}.R1", construct, "getattr(self, 'process_' + id.decode().strip(), None)", "4-byte ids with trailing blanks (e.g. 'BPM ') find their handler")
+    elif verdict.startswith("!"):
+        rep.violation(f"{P}.R1", construct, verdict[1:], "handlers must be looked up as process_<stripped id> with a None default", f"{rel}:{fn.lineno}")
     else:
-        rep.violation(f"{P}.R1", construct, src[:200], "handlers must be looked up as process_<stripped id> with a None default", f"{rel}:{fn.lineno}")
+        rep.inconclusive(f"{P}.R1", construct, verdict, "handler look-up not recognised", f"{rel}:{fn.lineno}")
     if "method(data)" in src:
         rep.ok(f"{P}.R1", construct, "method(data)", nontrivial=False)
     else:
@@ -137,6 +139,52 @@ def unknown_ids(repo: Repo, rep, P: str):
     else:
         rep.violation(f"{P}.R1", "src/python/rv/lib/iff.py:chunks", s[:200], "the chunk iterator must read unaligned little-endian chunks until EOF",
                       "src/python/rv/lib/iff.py")
+
+
+def _handler_lookup(fn: ast.FunctionDef) -> Optional[str]:
+    """None = sound; '!msg' = definitely wrong; other text = unrecognised."""
+    from ..codec import subst
+    defs: Dict[str, ast.expr] = {}
+    order = [n for n in walk_no_nested(fn) if isinstance(n, ast.Assign) and len(n.targets) == 1 and isinstance(n.targets[0], ast.Name)]
+    order.sort(key=lambda n: (n.lineno, n.col_offset))
+    look = None
+    for n in walk_no_nested(fn):
+        if isinstance(n, ast.Call) and norm(n.func) == "getattr" and len(n.args) >= 2 and norm(n.args[0]) == "self":
+            look = n
+    if look is None:
+        return "no getattr(self, …) look-up"
+    if len(look.args) < 3 or norm(look.args[2]) != "None":
+        return "!" + norm(look) + "  (no None default: an id without a handler raises AttributeError)"
+    # resolve the name expression through local definitions (last definition before the look-up wins)
+    env: Dict[str, ast.expr] = {}
+    for a in order:
+        if (a.lineno, a.col_offset) < (look.lineno, look.col_offset):
+            t = a.targets[0].id
+            env[t] = subst(a.value, {k: v for k, v in env.items() if k != t} | ({t: env[t]} if t in env else {}))
+    e = subst(look.args[1], env)
+    txt = norm(e)
+    const_parts = []
+    var_parts = []
+    if isinstance(e, ast.JoinedStr):
+        for v in e.values:
+            (const_parts if isinstance(v, ast.Constant) else var_parts).append(v.value if isinstance(v, ast.Constant) else v.value)
+    elif isinstance(e, ast.Call) and isinstance(e.func, ast.Attribute) and e.func.attr == "format" and isinstance(e.func.value, ast.Constant):
+        const_parts = [e.func.value.value.replace("{}", "").replace("{0}", "")]
+        var_parts = list(e.args)
+    elif isinstance(e, ast.BinOp) and isinstance(e.op, ast.Add) and isinstance(e.left, ast.Constant):
+        const_parts, var_parts = [e.left.value], [e.right]
+    elif isinstance(e, ast.BinOp) and isinstance(e.op, ast.Mod) and isinstance(e.left, ast.Constant):
+        const_parts, var_parts = [e.left.value.replace("%s", "")], [e.right]
+    else:
+        return f"name expression {txt[:80]}"
+    if "".join(str(c) for c in const_parts) != "process_" or len(var_parts) != 1:
+        return "!" + txt[:100] + "  (handler names are process_<ID>)"
+    vtxt = norm(var_parts[0])
+    if ".decode(" not in vtxt:
+        return f"id expression {vtxt[:80]}"
+    if ".strip()" not in vtxt and ".rstrip()" not in vtxt:
+        return "!" + vtxt[:100] + "  (the 4-byte id is not stripped: 'BPM ' would look for process_BPM␠)"
+    return None
 
 
 # ------------------------------------------------------------------------------------ R2
